@@ -6,6 +6,9 @@ import IweModel.Props.C04
 import IweModel.Props.C05
 import IweModel.Props.C06
 import IweModel.Props.C07
+import IweModel.Props.C08
+import IweModel.Props.C09
+import IweModel.Props.C10
 import IweModel.Props.C15
 import IweModel.Props.C17
 import IweModel.Props.C18
